@@ -363,6 +363,84 @@ func llEnumerate(c *eng.Ctx, sub string, run func(a llCase, c *eng.Ctx) *eng.Fai
 		c.Capped("family images cut by deadline")
 	}
 	c.Subspace("family-images", c.Evals()-before, false, fmt.Sprintf("sizes %v x comps{1,3} x P{2,7,8,9,12,15,16} x predictors x 6 structured contents (zeros, MAX, checker, alternating extremes columns, ramp, LCG noise)", sizes))
+
+	// one-line images whose difference-category histogram has a prescribed shape: the per-image optimal Huffman table is
+	// driven to its length limit (17 categories with Fibonacci counts need a 17-level tree at P=16) end to end
+	before = c.Evals()
+	type hj struct{ p, shape, pred int }
+	var hjs []hj
+	for _, p := range []int{8, 12, 15, 16} {
+		for shape := 0; shape < 4; shape++ {
+			for pred := 0; pred <= 8; pred++ {
+				hjs = append(hjs, hj{p, shape, pred})
+			}
+		}
+	}
+	done = c.Par(len(hjs), func(i int) {
+		j := hjs[i]
+		s := histogramImage(j.p, j.shape)
+		a := llCase{W: len(s), H: 1, C: 1, P: j.p, Pred: j.pred, S: s}
+		c.Eval(1)
+		if f := eng.Guard(func() *eng.Fail { return run(a, c) }); f != nil {
+			eng.Recheck(c, sub, a, reg)
+		}
+	})
+	if !done {
+		c.Capped("histogram images cut by deadline")
+	}
+	c.Subspace("category-histogram-images", c.Evals()-before, done, "P {8,12,15,16} x histogram shape over all P+1 difference categories {Fibonacci with the largest category rarest, Fibonacci with category 0 rarest, powers of two, flat} x predictors {0..7,SV1}: one-line images built difference by difference")
+}
+
+// histogramImage builds a one-line image whose successive differences (predictor Ra on the first line, whatever the
+// selected predictor) have category counts of the given shape over all categories 0..p.
+func histogramImage(p, shape int) []int {
+	max := 1<<uint(p) - 1
+	ncat := p + 1
+	counts := make([]int, ncat)
+	a, b := 1, 2
+	for i := 0; i < ncat; i++ {
+		switch shape {
+		case 0: // Fibonacci, largest category rarest
+			counts[ncat-1-i] = a
+			a, b = b, a+b
+		case 1: // Fibonacci, category 0 rarest
+			counts[i] = a
+			a, b = b, a+b
+		case 2: // powers of two capped so that the image stays small
+			counts[ncat-1-i] = 1 << uint(min(i, 11))
+		default:
+			counts[i] = 3
+		}
+	}
+	var cats []int
+	for k, n := range counts {
+		for i := 0; i < n; i++ {
+			cats = append(cats, k)
+		}
+	}
+	// deterministic shuffle
+	l := eng.NewLCG(p*7 + shape)
+	for i := len(cats) - 1; i > 0; i-- {
+		j := int(l.Next()>>8) % (i + 1)
+		cats[i], cats[j] = cats[j], cats[i]
+	}
+	v := 1 << uint(p-1) // the first sample is predicted by 2^(P-1)
+	out := make([]int, 0, len(cats))
+	for _, k := range cats {
+		if k > 0 {
+			m := 1 << uint(k-1)
+			if k == p && p < 16 {
+				m = 1<<uint(k-1) + 0 // magnitude 2^(P-1): category P
+			}
+			if v+m <= max {
+				v += m
+			} else {
+				v -= m
+			}
+		}
+		out = append(out, v)
+	}
+	return out
 }
 
 // familyImage returns structured content k for the geometry (interleaved samples).
